@@ -3,6 +3,7 @@
 #include "vec_i32.h"
 #include "pred_types.h"
 #include "pred_helpers.h"
+#include <math.h>
 
 /* ------------------------------------------------------------------ wrap transform: specs */
 #define WRAP_CLAMP(w, v) ((v) > (w)->max_value_ ? (w)->max_value_ : ((v) < (w)->min_value_ ? (w)->min_value_ : (v)))
@@ -147,5 +148,47 @@ void h_oct_safe(void) {
   int32_t out[2] = {0, 0};
   CanonDec_ComputeOriginalValue(&o, pred, corr, out);
   ASSERT(1, "oct.safe.returns");
+  HARNESS_END();
+}
+
+/* oct.intvec (C07): for every q and every integer vector on the octahedron |x|+|y|+|z| == center: the octahedral coordinates are inside the
+ * q-bit square [0,max_value]^2 and are canonical (fixed point of CanonicalizeOctahedralCoords). */
+void h_oct_intvec(void) {
+  NONDET(int32_t, q); NONDET_ARR(int32_t, v, 3);
+  ASSUME(q >= 2 && q <= 30);
+  struct OTB o; o.quantization_bits_ = -1; o.max_quantized_value_ = 0; o.max_value_ = 0; o.dequantization_scale_ = 1.f; o.center_value_ = -1;
+  ASSUME(OTB_SetQuantizationBits(&o, q));
+  ASSUME(v[0] >= -o.center_value_ && v[0] <= o.center_value_ && v[1] >= -o.center_value_ && v[1] <= o.center_value_ && v[2] >= -o.center_value_ && v[2] <= o.center_value_);
+  ASSUME(draco_abs_i32(v[0]) + draco_abs_i32(v[1]) + draco_abs_i32(v[2]) == o.center_value_);
+  int32_t s = -1, t = -1; OTB_IntegerVectorToQuantizedOctahedralCoords(&o, v, &s, &t);
+  ASSERT(s >= 0 && t >= 0 && s <= o.max_value_ && t <= o.max_value_, "oct.intvec.inside_q_bit_square");
+  int32_t cs, ct; OTB_CanonicalizeOctahedralCoords(&o, s, t, &cs, &ct);
+  ASSERT(cs == s && ct == t, "oct.intvec.canonical");
+  HARNESS_END();
+}
+/* oct.floatvec.q (C07): for EVERY finite float32 3-vector (zero, denormal, huge included): no undefined float->int conversion, coordinates
+ * inside the q-bit square and canonical.  (Unit length and the angle bound are not expressible as cheap obligations: not claimed.) */
+void h_oct_floatvec(void) {
+  NONDET(int32_t, q); NONDET_ARR(float, f, 3);
+  ASSUME(q == OCT_Q);
+  ASSUME(!isnan(f[0]) && !isnan(f[1]) && !isnan(f[2]) && !isinf(f[0]) && !isinf(f[1]) && !isinf(f[2]));
+  struct OTB o; o.quantization_bits_ = -1; o.max_quantized_value_ = 0; o.max_value_ = 0; o.dequantization_scale_ = 1.f; o.center_value_ = -1;
+  ASSUME(OTB_SetQuantizationBits(&o, q));
+  int32_t s = -1, t = -1; OTB_FloatVectorToQuantizedOctahedralCoords_f32(&o, f, &s, &t);
+  ASSERT(s >= 0 && t >= 0 && s <= o.max_value_ && t <= o.max_value_, "oct.floatvec.inside_q_bit_square");
+  int32_t cs, ct; OTB_CanonicalizeOctahedralCoords(&o, s, t, &cs, &ct);
+  ASSERT(cs == s && ct == t, "oct.floatvec.canonical");
+  HARNESS_END();
+}
+/* oct.canon_intvec (C07/C02): CanonicalizeIntegerVector on any int32 vector whose components are bounded by 2^29 (what the predictors deliver
+ * from quantized positions): no overflow, and the result lies on the octahedron |x|+|y|+|z| == center. */
+void h_oct_canon_intvec(void) {
+  NONDET(int32_t, q); NONDET_ARR(int32_t, v, 3);
+  ASSUME(q >= 2 && q <= 30);
+  struct OTB o; o.quantization_bits_ = -1; o.max_quantized_value_ = 0; o.max_value_ = 0; o.dequantization_scale_ = 1.f; o.center_value_ = -1;
+  ASSUME(OTB_SetQuantizationBits(&o, q));
+  ASSUME(v[0] > -(1 << 29) && v[0] < (1 << 29) && v[1] > -(1 << 29) && v[1] < (1 << 29) && v[2] > -(1 << 29) && v[2] < (1 << 29));
+  OTB_CanonicalizeIntegerVector_i32(&o, v);
+  ASSERT((int64_t)draco_abs_i32(v[0]) + draco_abs_i32(v[1]) + draco_abs_i32(v[2]) == o.center_value_, "oct.canon_intvec.on_octahedron");
   HARNESS_END();
 }
